@@ -1,8 +1,140 @@
-//! Property check C20 (see /verif/DESIGN.md §4).
+//! Property check C20 — retained content is returned intact or not at all (see /verif/DESIGN.md §4).
+//!
+//! Part 1 (`cas`): explicit-state BFS over the real `echo-cas` tiers and the semantic retention
+//! index against a reference model.  Part 2 (`wsc`): WAL causal-history record sets through the
+//! three WSC export profiles and back, with every referenced blob / embedded segment withheld and
+//! every byte of it flipped.
+mod cas;
+mod wsc;
+
 use mc::{Level, Report};
 
 fn main() {
-    let r = Report::new("C20", Level::Exploration);
-    r.machinery_error("check not implemented yet");
+    let r = Report::new("C20", Level::ModelChecking);
+    mc::quiet_panics();
+    if let Some(p) = r.replay.clone() {
+        match std::fs::read_to_string(&p)
+            .ok()
+            .and_then(|s| serde_json::from_str::<mc::Value>(&s).ok())
+        {
+            Some(v) => {
+                let case = v.get("detail").and_then(|d| d.get("case")).cloned().unwrap_or(v);
+                match case.get("part").and_then(|x| x.as_str()) {
+                    Some("cas") => cas::replay(&r, &case),
+                    Some("wsc") => wsc::replay(&r, &case),
+                    _ => r.machinery_error("replay: unknown part"),
+                }
+            }
+            None => r.machinery_error("replay: cannot read file"),
+        }
+        r.rule("replay of one recorded case (cas: the recorded op sequence; wsc: the recorded history with all of its faults)");
+        r.finish();
+    }
+
+    r.rule(
+        "Part 1: BFS over ALL sequences (depth ≤4 quick / ≤5 thorough, dedup by the complete concrete state of the real store) of \
+         {put(b), put_verified(h(b),b), put_verified(h(b),b') b'≠b, get, has, pin, unpin} × 3 blobs (empty, 1 byte, 16 bytes) \
+         [+ reopen, corrupt(h: flip/truncate/append/swap-in-other-blob/delete the blob file) on disk] on MemoryTier and DiskTier, and of \
+         {retain(c,b), load(c), load_by_hash(h), descriptor(c), load_range(c,·), put, unpin [+reopen, corrupt]} × 3 coordinates differing in one \
+         field × 3 blobs on RetainedBlobIndex over each tier; every transition executed on the real store rebuilt by re-executing its history, \
+         observation and complete state compared with the RefCas reference at every step. \
+         Part 2: ALL valid WAL histories of 1..3 transactions over the tier's alphabet (submission, tick, retained readings incl. same-bytes/other-coordinate \
+         and same-coordinate/other-bytes) × every subset of segment rotations, written with the real FilesystemWalStore, exported through the 3 WSC profiles and \
+         imported back; every embedded segment / retained payload / CAS blob individually withheld and every byte of it flipped through each channel \
+         (real exporter, forged self-consistent envelope, lying CAS, damaged DiskTier file, consistent reference lie), every envelope byte flipped, every \
+         export validated against every other history's root. \
+         distinct_nontrivial = distinct (subject, concrete state, op) transitions whose op touches stored/pinned/indexed/corrupted material or is a mismatch, \
+         plus one per WAL history.",
+    );
+    r.assume("hash collisions of BLAKE3 are not modelled");
+    r.assume("I/O failures (ENOSPC, EIO, permissions) are not injected here; DiskTier I/O errors would be reported as machinery errors");
+    r.assume("DiskTier is adapted to the BlobStore trait by harness code for the retention-over-disk subject and for the CAS port: I/O error = panic, integrity error on get = absence");
+    r.assume("corruption model: whole-file replacement by flip/truncate/append/other-blob/delete (cas part), single-bit flips, truncations and removal of individual blobs/segments/envelope bytes (wsc part); concurrent writers are not modelled");
+    r.assume("causal-anchor admission transactions cannot be built through the public API (pub(crate) builders) and are not part of the history family; the causal_anchor envelope is exercised with the empty record set only");
+
+    // ── Part 1 ──
+    let depth = r.pick(4usize, 5usize);
+    let wit = cas::Witnesses::default();
+    for s in cas::SUBJECTS {
+        let st = cas::explore(&r, s, depth, &wit);
+        println!(
+            "[C20] cas {:<28} depth {} states {} transitions {} ({:.1}s)",
+            s.name(),
+            st.max_depth,
+            st.states,
+            st.transitions,
+            r.elapsed_s()
+        );
+    }
+    // vacuity guards, part 1
+    for s in cas::SUBJECTS {
+        let t = s.name();
+        let c = |k: &str| r.counter_value(&format!("{t}/op/{k}"));
+        let o = |k: &str| r.outcome_count(&format!("{t}/{k}"));
+        let mut kinds: Vec<&str> = if s.retention() {
+            vec!["retain", "load", "load_by_hash", "descriptor", "load_range", "put", "unpin"]
+        } else {
+            vec!["put", "put_verified", "put_verified_mismatch", "get", "has", "pin", "unpin"]
+        };
+        if s.disk() {
+            kinds.extend(["reopen", "corrupt_flip", "corrupt_truncate", "corrupt_append", "corrupt_swap", "corrupt_delete"]);
+        }
+        for k in kinds {
+            r.guard(&format!("cas_every_op_kind_executed/{t}/{k}"), c(k) > 0);
+        }
+        if !s.retention() {
+            r.guard(&format!("cas_mismatch_refusals_seen/{t}"), o("put_verified_mismatch→HashMismatch") > 0);
+            let distinct_get = ["get→Some", "get→None", "get→HashMismatch"].iter().filter(|k| o(k) > 0).count();
+            r.guard(&format!("cas_at_least_two_get_outcomes/{t}"), distinct_get >= 2);
+        } else {
+            r.guard(&format!("cas_retain_conflict_seen/{t}"), o("retain→SemanticCoordinateConflict") > 0);
+            r.guard(&format!("cas_retain_ok_seen/{t}"), o("retain→Ok") > 0);
+            r.guard(&format!("cas_load_ok_and_missing_coordinate_seen/{t}"), o("load→Ok") > 0 && o("load→MissingSemanticCoordinate") > 0);
+            r.guard(&format!("cas_missing_blob_seen/{t}"), o("load_by_hash→MissingBlob") > 0);
+        }
+        if s.disk() {
+            r.guard(&format!("cas_reopen_transitions_seen/{t}"), c("reopen") > 0);
+        }
+    }
+    r.guard("cas_corruption_detected_on_disk_read", r.outcome_count("disk-tier/get→HashMismatch") > 0);
+    r.guard(
+        "cas_corruption_detected_through_retention_on_disk",
+        r.outcome_count("retention-over-disk-tier/load→MissingBlob") > 0,
+    );
+
+    // ── Part 2 ──
+    wsc::run(&r, &wit);
+    println!("[C20] wsc done ({:.1}s)", r.elapsed_s());
+    for k in [
+        "ref-only/altered-segment-dependency",
+        "ref-only/withheld-segment-dependency",
+        "self-contained/withheld-embedded-segment",
+        "self-contained/withheld-embedded-retained-payload",
+        "self-contained/corrupt-embedded-segment-via-exporter",
+        "self-contained/corrupt-embedded-segment-forged-envelope",
+        "self-contained/truncated-embedded-segment",
+        "self-contained/corrupt-embedded-retained-payload-substituted",
+        "self-contained/corrupt-embedded-retained-payload-forged-envelope",
+        "cas-addressed/withheld-cas-blob-memory-tier",
+        "cas-addressed/withheld-cas-blob-disk-tier",
+        "cas-addressed/corrupt-cas-blob-lying-store",
+        "cas-addressed/corrupt-cas-blob-consistent-lie",
+        "cas-addressed/corrupt-cas-blob-disk-tier-file",
+        "cas-addressed/cas-reference-length-lie",
+    ] {
+        r.guard(&format!("wsc_typed_refusals_seen/{k}"), r.counter_value(&format!("wsc-refused/{k}")) > 0);
+    }
+    r.guard("wsc_honest_roundtrips_seen", r.counter_value("wsc/honest_roundtrips_ok") >= 9);
+    r.guard("wsc_foreign_root_pairs_checked", r.counter_value("wsc/foreign_root_pairs") > 0);
+    r.guard(
+        "wsc_forged_retained_envelope_reached_the_hash_check",
+        r.outcome_count("wsc/self-contained/corrupt-embedded-retained-payload-forged-envelope→Err:RetainedMaterialDigestMismatch") > 0,
+    );
+    r.guard(
+        "wsc_lying_store_reached_the_hash_check",
+        r.outcome_count("wsc/cas-addressed/corrupt-cas-blob-lying-store→Err:CasBlobHashMismatch") > 0,
+    );
+
+    wit.flush(&r);
     r.finish();
 }
